@@ -22,6 +22,29 @@ use std::hash::{Hash, Hasher};
 use std::path::Path;
 use std::sync::Arc;
 
+/// Input type of an aggregate, used to pick its accumulator arm.
+///
+/// When the argument's type cannot be resolved against the input schema (a
+/// qualified `t.x` or an aliased derived-table column that the arrow schema
+/// does not carry), fall back to the aggregate's OUTPUT type instead of a
+/// blanket Float64: a BIGINT SUM column can only come from an integer input.
+/// The blanket default made `SUM(t.x)` over BIGINT accumulate in the f64 arm
+/// and come out as NULL (the Float64 result did not fit the BIGINT column).
+pub(crate) fn agg_input_type(
+    input: &Expr,
+    func: &AggregateFunction,
+    plan_schema: &crate::planner::PlanSchema,
+    out_type: Option<&DataType>,
+) -> DataType {
+    match input.data_type(plan_schema) {
+        Ok(dt) => dt,
+        Err(_) => match (func, out_type) {
+            (AggregateFunction::Sum, Some(DataType::Int64)) => DataType::Int64,
+            _ => DataType::Float64,
+        },
+    }
+}
+
 /// Merge per-thread entry lists (all belonging to the same key shard) into a
 /// single groups map. Duplicate keys across threads have their accumulator
 /// states merged pairwise.
@@ -3227,9 +3250,15 @@ pub fn execute_morsel_aggregation(
 
     // Determine input types for aggregates
     let plan_schema = crate::planner::PlanSchema::from_qualified_arrow(input_schema.as_ref());
+    let num_keys = group_by_exprs.len();
     let input_types: Vec<DataType> = agg_input_exprs
         .iter()
-        .map(|e| e.data_type(&plan_schema).unwrap_or(DataType::Float64))
+        .zip(agg_funcs.iter())
+        .enumerate()
+        .map(|(i, (e, f))| {
+            let out = output_schema.fields().get(num_keys + i).map(|fld| fld.data_type());
+            agg_input_type(e, f, &plan_schema, out)
+        })
         .collect();
 
     let num_threads =
